@@ -1627,8 +1627,9 @@ func (b *ASTBuilder) buildExceptHandler(tsNode *sitter.Node) *Node {
 		if child != nil {
 			switch child.Type() {
 			case "as_pattern":
-				// Exception type and optional name
-				if exType := b.getChildByFieldName(child, "type"); exType != nil {
+				// Exception type and name: the type expression is the first
+				// named child of the as_pattern (it has no field name)
+				if exType := child.NamedChild(0); exType != nil {
 					node.Value = b.buildNode(exType)
 				}
 				if alias := b.getChildByFieldName(child, "alias"); alias != nil {
